@@ -841,3 +841,34 @@ def rf10h(run):
                       'only: a by-value struct passed in xmm registers is not counted, so a variadic callee may not save the vector '
                       'registers it is about to read' % txt, line=movs[0]['l'])
     run.min_instances(rule, 1)
+
+
+def rf10i(run):
+    rule = 'RF10i'
+    run.rule(rule, 'a by-value block argument that goes to the outgoing stack area is placed at the running offset as it is: MIR block '
+                   'types carry no alignment (c2mir passes structs with 8-byte granularity, the psABI aligns a struct to 8 unless it has '
+                   'a 16-byte aligned member, which MIR cannot express). In the block branches of machinize_call and _MIR_get_ff_call the '
+                   'running offset is therefore only advanced (+=), never re-assigned (rounded)')
+    n = 0
+    for unit, fn, var in (('gen', 'machinize_call', 'arg_stack_size'), ('mir', '_MIR_get_ff_call', 'sp_offset')):
+        tu = run.tu(unit)
+        f = tu.func(fn)
+        run.functions_analysed.add((unit, fn))
+        regions = [x for x in f.walk() if x['k'] == 'IfStmt' and F.src(F.strip(x['c'][0])).replace(' ', '') == 'MIR_blk_type_p(type)']
+        if not regions:
+            raise F.AnalysisBroken('%s: the block-argument branch was not found' % fn)
+        for rg in regions:
+            adv = [y for y in F.walk(rg['c'][1]) if y['k'] == 'CompoundAssignOperator' and F.src(F.strip(y['c'][0])) == var]
+            asg = [y for y in F.walk(rg['c'][1]) if y['k'] == 'BinaryOperator' and y['op'] == '=' and F.src(F.strip(y['c'][0])) == var]
+            n += 1
+            ok = not asg
+            run.ob(rule, (fn, rg['l']), ok, {'function': fn, 'block branch at line': rg['l'], 'advances of %s' % var: len(adv),
+                                            're-assignments of %s' % var: [F.src(y)[:60] for y in asg]})
+            if not ok:
+                run.violation(rule, f, 'offset of a block argument on the stack',
+                              '%s re-assigns the running stack offset inside the block-argument branch (%s): a struct of 8-byte aligned '
+                              'members whose size happens to be a multiple of 16 is then placed 8 bytes past where a native callee reads it, '
+                              'and every later stack argument is shifted' % (fn, F.src(asg[0])[:70]), line=asg[0]['l'])
+    if n < 2:
+        raise F.AnalysisBroken('block-argument branches found: %d' % n)
+    return n
